@@ -165,7 +165,7 @@ C09StructW(o1, changed) ==
         : e \in changed }
 
 AfterEvery(cfg, o, o1, ln) ==
-  LET changed == {r.e : r \in Range(ln.evs)}
+  LET changed == {e \in 1..Len(o1.snap) : e > Len(o.snap) \/ o.snap[e] # o1.snap[e]}
       \* record first observed completion
       fc1 == [e \in 1..Len(o1.snap) |->
                  IF e <= Len(o.fc) /\ o.fc[e] # <<>> THEN o.fc[e]
@@ -481,10 +481,9 @@ StepEnd(cfg, o, ln) ==
 \* ------------------------------------------------------------------------
 \* the monitor
 \* ------------------------------------------------------------------------
-Step(cfg, o, ln) ==
-  LET o0 == [o EXCEPT !.snap = ApplyEvs(@, ln.evs), !.ety = ApplyTys(@, ln.evs), !.hist = ApplyPairs(@, ln.hist),
-                      !.q = ApplyPairs(@, ln.q), !.reg = ApplyPairs(@, ln.reg), !.now = ln.t]
-      o1 == CASE ln.a = "Disp"     -> StepDisp(cfg, o0, ln)
+\* o: state before the line; o0: o with the projected public state after the line already applied
+StepCore(cfg, o, o0, ln) ==
+  LET o1 == CASE ln.a = "Disp"     -> StepDisp(cfg, o0, ln)
               [] ln.a = "HEnter"   -> StepEnter(cfg, o0, ln)
               [] ln.a = "HExit"    -> StepExit(cfg, o0, ln)
               [] ln.a = "HOp"      -> StepOp(cfg, o0, ln)
@@ -507,4 +506,8 @@ Step(cfg, o, ln) ==
               [] ln.a = "End"      -> StepEnd(cfg, o0, ln)
               [] OTHER             -> o0
   IN AfterEvery(cfg, o, o1, ln)
+
+Step(cfg, o, ln) ==
+  StepCore(cfg, o, [o EXCEPT !.snap = ApplyEvs(@, ln.evs), !.ety = ApplyTys(@, ln.evs), !.hist = ApplyPairs(@, ln.hist),
+                             !.q = ApplyPairs(@, ln.q), !.reg = ApplyPairs(@, ln.reg), !.now = ln.t], ln)
 =============================================================================
